@@ -26,7 +26,9 @@ Added by the seeding rounds - C10.2 shares the start-up domain clause of
 C09.1; C10.3 the per-server helper reports every instance it put back on every
 exit a placement can reach, has_apps is a snapshot taken before the removal,
 and a recorded identity (0 included) is taken back unconditionally (shared
-with C11.4).
+with C11.4). Fourth round: C10.1 also requires the before/after snapshots to
+bracket every placement mutator and a failed restore to delete its record
+(shared with C09.3 / C09.4).
 Does NOT decide that a restarted master completes start-up and republishes a
 placement equal to its model (behaviour of a run; see C09/C11).
 """
